@@ -9,7 +9,7 @@ CONSTANTS
   ValidW = {"w1"}
   ENames = {"ProtocolError", "NoSuchModule", "NoSuchParameter", "NoSuchCommand", "CommandFailed", "CommandRunning", "ReadOnly", "RangeError", "WrongType", "BadJSON", "CommunicationFailed", "TimeoutError", "HardwareError", "IsBusy", "IsError", "Disabled", "Impossible", "ReadFailed", "OutOfRange", "NotImplemented", "InternalError", "Bogus", "BadValue"}
   KnownE = {"ProtocolError", "NoSuchModule", "NoSuchParameter", "NoSuchCommand", "CommandFailed", "CommandRunning", "ReadOnly", "RangeError", "WrongType", "BadJSON", "CommunicationFailed", "TimeoutError", "HardwareError", "IsBusy", "IsError", "Disabled", "Impossible", "ReadFailed", "OutOfRange", "NotImplemented"}
-  Texts = {"t1"}
+  Texts = {"tm"}
   PrefTexts = {}
   PrefClass = "RangeError"
   PrefRest = "t1"
